@@ -72,6 +72,26 @@ CLAIMS['C19'] = dict(
    text='Decides structural conditions of service/direct agreement: (E1) in all 22 HTTP handlers no error result is dropped and, on every branch where an error is non-nil, every path to a return first reports to the client (w.Error, WriteError, the handler\'s handleError closure or an explicit status); (E2) every path through queryio.Writer.WriteControl writes to the response — violated on today\'s tree for responses without control frames (genuine, reproduced, recorded as a known finding); (K1) every api.Query* message the server writes is bound in the client\'s unmarshaler and handled in the client scanner, and QueryError becomes a returned error; (K2) every lake/api.Interface method of the remote implementation issues a request (the RemoveBranch stub was fixed). Does not decide equality of lake state or output between the two access paths.',
    note='Helpers that take the ResponseWriter report their own errors; deferred cleanup calls are not obligations.',
    ref='DESIGN.md §2 C19')
+CLAIMS['C06'] = dict(
+   technique='resolved-callee stable-sort check over the value-ordering packages, tie-break shape of the spill merge, signature-based discovery of value-ordering functions with call-graph reachability to the single comparison routine',
+   text='Decides structural conditions of sort/merge correctness: (S1) every sort call on the value-ordering path (comparator index sort, group-by release, lister object sort, …) resolves to a stable algorithm, and spill.MergeSort.Less returns `ordinal <` exactly on the branch where the comparator returned 0; (S2) every function of the runtime with signature func(zed.Value, zed.Value) int reaches expr.compareValues / Comparator.Compare (or calls a CompareFn value), so no operator orders values by a second routine; (S3) the spill reader copies a record before advancing its file. Does not decide that compareValues is a total preorder, that the native fast path agrees with it, or spill-invariance of the output.',
+   note='Value-ordering functions are recognised by signature.',
+   ref='DESIGN.md §2 C06')
+CLAIMS['C07'] = dict(
+   technique='AST/type-switch analysis with computed case sets against confirmed operator tables, SSA backward slices for per-leg copies and operand order, avoid-reachability for flag pairing',
+   text='Decides structural necessary conditions of optimizer soundness: (D1) the default arms of the demand inference over dag.Op and dag.Expr yield demand.All() and the default arm of analyzeSortKeys yields unknown order, so an unlisted or new operator is treated conservatively; (D2) every op placed into parallel paths is a copyOp/copyOps made inside the per-leg loop; (D3) PartialsOut on the legs and PartialsIn on the tail are set on the same paths and guarded against re-splitting; (D4) mergeFilters builds and(first, second); (D5) the operators that pass the sort key through, that end a concurrent path, and that are lifted into legs are exactly the confirmed tables. Does not decide semantic equivalence of the optimized and the analyzed plan, which is a relation between two executions.',
+   note='Operator tables confirmed by reading; changing them deliberately requires re-confirmation (the check then reports the changed entry).',
+   ref='DESIGN.md §2 C07')
+CLAIMS['C08'] = dict(
+   technique='lock-state dataflow on the shared lister/slicer, SSA provenance of the merge key, shared optimizer rules',
+   text='Decides structural conditions of parallelism independence: (L1/L2/L4) meta.Lister and meta.Slicer state shared by all scatter legs is only touched under their mutex, helpers are requires-held; (D2/D3/D5) legs get copies, partials are paired, and the confirmed sets of operators end a concurrent path or are lifted into legs; (M1) the Merge built by parallelizeSeqScan is keyed on the sort key concurrentPath reports for this path, under needMerge, and Combine is used only when no order is needed. Does not decide equality of results across degrees of parallelism or correctness of partial aggregates.',
+   note='Shares D2/D3/D5 with C07 (decided by the same code).',
+   ref='DESIGN.md §2 C08')
+CLAIMS['C09'] = dict(
+   technique='edge-dominance of the vectorize decision, loop-shape check of the all-objects guard, panicking-dispatch detection (type-assert chains and unchecked assertions on vector.Any) over the call graph of the auto-vectorized operators',
+   text='Decides structural conditions of vector/sequential agreement: (G1) every vectorize() in Optimizer.Vectorize is dominated by a true isScanWithVectors, which returns true only after a loop over a non-empty snapshot in which any object without a vector returns false; (X1) in the functions reachable from the auto-selected vector operators (CountByString, Sum, the vam scanner, the materializer) no dispatch on vector.Any panics for an implementer without a case and no unchecked type assertion is applied to a vector.Any — violated on today\'s tree by the prototype CountByString (two genuine known findings, reproduced). Does not decide equality of results between the runtimes.',
+   note='Scope by static calls plus dispatch on vector.Any; dispatch on zed.Type/VNG metadata inside the vector cache is constrained by the VNG writer and not decided.',
+   ref='DESIGN.md §2 C09')
 NA = {}
 for i in range(1, 21):
     pid = 'C%02d' % i
